@@ -166,6 +166,7 @@ type runStep struct {
 	StdinFile   bool             `json:"stdin_file,omitempty"`
 	StdinOffset int              `json:"stdin_offset,omitempty"`
 	Chunks      []int            `json:"chunks,omitempty"`
+	StdinFail   int              `json:"stdin_fail,omitempty"` // the stdin pipe fails with EIO after that many bytes (0: never)
 	SinkLimit   *int             `json:"sink_limit,omitempty"`
 	SinkErr     string           `json:"sink_err,omitempty"` // how stdout fails at the limit: "" (ENOSPC) | eio | epipe
 	Faults      []simos.Fault    `json:"faults,omitempty"`
@@ -352,7 +353,7 @@ func withNoCache(argv []string) []string {
 // pristine machine holding the same user files.
 func (x *cliExec) reference(rs *runStep, files map[string][]byte, stdin []byte) obs {
 	h := sha256.New()
-	fmt.Fprintf(h, "%q|%s|%v|%v|%d|", rs.Argv, rs.Stdin, rs.Chunks, rs.StdinFile, rs.StdinOffset)
+	fmt.Fprintf(h, "%q|%s|%v|%v|%d|%d|", rs.Argv, rs.Stdin, rs.Chunks, rs.StdinFile, rs.StdinOffset, rs.StdinFail)
 	if rs.SinkLimit != nil {
 		fmt.Fprintf(h, "sink=%d%s|", *rs.SinkLimit, rs.SinkErr)
 	}
@@ -378,6 +379,7 @@ func (x *cliExec) reference(rs *runStep, files map[string][]byte, stdin []byte) 
 		// how a pipe chunks the data is not something a user controls, so it
 		// must not show in the output either.
 		spec.Stdin.Chunks = altChunks(rs.Chunks)
+		spec.Stdin.FailAt = rs.StdinFail
 		if rs.StdinFile {
 			spec.Stdin.File, spec.Stdin.Offset = rs.Stdin, int64(rs.StdinOffset)
 		}
@@ -518,6 +520,7 @@ func (x *cliExec) runStep(i int, rs *runStep) {
 	} else {
 		spec.Stdin.Data = stdin
 		spec.Stdin.Chunks = rs.Chunks
+		spec.Stdin.FailAt = rs.StdinFail
 		if rs.StdinFile {
 			spec.Stdin.File, spec.Stdin.Offset = rs.Stdin, int64(rs.StdinOffset)
 		}
@@ -772,6 +775,10 @@ func (x *cliExec) classify(s *stepInfo, what string) (string, string) {
 	}
 	if x.sc.Mode == "c13" {
 		return "cli-served-corrupt", cmd + ":" + x.lastFaultKind(s.idx)
+	}
+	if s.run.StdinFail > 0 && s.real.Status != 0 && s.ref.Status != 0 {
+		// both runs failed on the same read error; what had been written by then differs
+		return "partial-output-before-stdin-error", what
 	}
 	if s.run.SinkLimit != nil {
 		return "sink-prefix-mismatch", cmd + ":" + what
